@@ -19,6 +19,7 @@ type verifChanPC struct {
 	local    net.Addr
 	onClose  func() // native barrier hook for lock-order replays
 	reads    int
+	gen      int
 }
 
 func (c *verifChanPC) ReadFrom(p []byte) (int, net.Addr, error) {
@@ -63,7 +64,8 @@ func verifListenSharedPacket(address string) (net.PacketConn, error) {
 	if pc, ok := verifBoundPC[address]; ok && pc.closed == 0 {
 		return nil, errVerifFault // address already in use
 	}
-	pc := &verifChanPC{in: make(chan verifRead), closedCh: make(chan struct{}), local: &net.UDPAddr{IP: net.IPv4(127, 0, 0, 1), Port: 9000}, onClose: verifBoundPCHook}
+	verifPacketGen[address]++
+	pc := &verifChanPC{in: make(chan verifRead), closedCh: make(chan struct{}), local: &net.UDPAddr{IP: net.IPv4(127, 0, 0, 1), Port: 9000}, onClose: verifBoundPCHook, gen: verifPacketGen[address]}
 	verifBoundPC[address] = pc
 	return pc, nil
 }
@@ -419,4 +421,65 @@ func VH_C13_mixtures() {
 		h.Close()
 	}
 	verifReach("C13.mixtures.done", true)
+}
+
+// ---- exported helpers for harnesses of other packages (cmd/outline-ss-server) ----
+
+// VerifInjectUDP delivers a datagram to the shared packet socket bound at address.
+func VerifInjectUDP(address string, data []byte, from net.Addr) bool {
+	verifPCMu.Lock()
+	pc, ok := verifBoundPC[address]
+	verifPCMu.Unlock()
+	if !ok || pc.closed > 0 {
+		return false
+	}
+	select {
+	case pc.in <- verifRead{data: data, addr: from}:
+		return true
+	case <-pc.closedCh:
+		return false
+	}
+}
+
+// VerifPacketBound: is a shared packet socket currently bound at address?
+func VerifPacketBound(address string) bool {
+	verifPCMu.Lock()
+	defer verifPCMu.Unlock()
+	pc, ok := verifBoundPC[address]
+	return ok && pc.closed == 0
+}
+
+// VerifOccupyPacket binds address from outside so that the server's bind fails.
+func VerifOccupyPacket(address string) {
+	verifPCMu.Lock()
+	defer verifPCMu.Unlock()
+	verifBoundPC[address] = &verifChanPC{in: make(chan verifRead), closedCh: make(chan struct{})}
+}
+
+func VerifResetPackets() {
+	verifPCMu.Lock()
+	defer verifPCMu.Unlock()
+	verifBoundPC = map[string]*verifChanPC{}
+	verifTargets = nil
+}
+
+// VerifReleasePacket frees an address taken with VerifOccupyPacket.
+func VerifReleasePacket(address string) {
+	verifPCMu.Lock()
+	defer verifPCMu.Unlock()
+	delete(verifBoundPC, address)
+}
+
+// VerifPacketSocketClosed reports how many shared packet sockets were ever closed at address,
+// and VerifPacketSocketGen a counter that changes when the address is re-bound.
+var verifPacketGen = map[string]int{}
+
+func VerifPacketSocketGen(address string) int {
+	verifPCMu.Lock()
+	defer verifPCMu.Unlock()
+	pc, ok := verifBoundPC[address]
+	if !ok {
+		return -1
+	}
+	return pc.gen
 }
